@@ -59,9 +59,17 @@ def run_tests(pid, tier, only=None):
                     os.path.join(NDIR, t['file']), t['file'][:-3]))
         env = dict(os.environ, CARGO_NET_OFFLINE="true", RUSTFLAGS="--cfg rozukke_lace_verif", VERIF_NATIVE_OUT=os.path.join(d, "verif_native.out"),
                    CARGO_TARGET_DIR=os.path.join(SCRATCH_ROOT, 'lace-native-target'))
-        cmd = ['cargo', 'test', '--offline', '--lib', '--release', 'verif_native', '--', '--test-threads', '8']
+        if any(t.get('needs_bin') for t in regs):
+            # process-level tests drive the real binary built from the same scratch copy (without the test cfg)
+            env_b = dict(os.environ, CARGO_NET_OFFLINE='true', CARGO_TARGET_DIR=os.path.join(SCRATCH_ROOT, 'lace-native-target-bin'))
+            b = subprocess.run(['cargo', 'build', '--offline', '--release', '--bin', 'lace'], cwd=d, env=env_b, capture_output=True, text=True)
+            binp = os.path.join(SCRATCH_ROOT, 'lace-native-target-bin', 'release', 'lace')
+            if b.returncode == 0 and os.path.exists(binp):
+                shutil.copy(binp, os.path.join(d, 'lace-under-test'))
+                env['VERIF_LACE_BIN'] = os.path.join(d, 'lace-under-test')
+        cmd = ['cargo', 'test', '--offline', '--lib', '--bins', '--release', 'verif_native', '--', '--test-threads', '8']
         try:
-            p = subprocess.run(cmd, cwd=d, env=env, capture_output=True, text=True, timeout=3000 if tier == 'thorough' else 1200)
+            p = subprocess.run(cmd, cwd=d, env=env, capture_output=True, text=True, stdin=subprocess.DEVNULL, timeout=3000 if tier == 'thorough' else 1200)
             text = p.stdout + '\n=====STDERR=====\n' + p.stderr
             outp = os.path.join(d, 'verif_native.out')
             if os.path.exists(outp):
